@@ -220,7 +220,7 @@ static void RunDecode(const Base &base, const std::string &bytes, int entry, uin
 static const int64_t kC0 = 64ll << 20, kKin = 2048, kKel = 256;  // calibrated: largest peak seen on corrupted 190..500-byte streams is 18 MB (fixed-size rANS tables)
 
 static std::vector<Base> g_bases;
-struct Segment { int base; int kind; int64_t count; int64_t start; };  // kind: 0 trunc 1 byte 2 u32 3 varint 4 wrap-magic (tiny bases only)
+struct Segment { int base; int kind; int64_t count; int64_t start; };  // kind: 0 trunc 1 byte 2 u32 3 varint 4 wrap-magic (tiny bases only) 5 thinned plan for longer legacy streams (quick)
 static std::vector<Segment> g_plan;
 static int64_t g_plan_total = 0;
 
@@ -275,7 +275,14 @@ static void BuildBases(const vf::Args &a) {
   // Systematic plan over the short bases.
   for (size_t b = 0; b < g_bases.size(); ++b) {
     const int64_t L = static_cast<int64_t>(g_bases[b].bytes.size());
-    if (static_cast<size_t>(L) > max_len && g_bases[b].name.rfind("special/", 0) != 0) continue;
+    if (static_cast<size_t>(L) > max_len && g_bases[b].name.rfind("special/", 0) != 0) {
+      // Quick tier: the longer streams of older bitstream versions (the only inputs that reach the backwards
+      // compatibility branches) get a thinned plan: every 4th truncation, two byte patterns and one uint32
+      // pattern per offset.
+      const uint8_t maj = static_cast<uint8_t>(g_bases[b].bytes[5]), mnr = static_cast<uint8_t>(g_bases[b].bytes[6]);
+      if (!thorough && g_bases[b].kind == kGeometry && L <= 3000 && (maj < 2 || (maj == 2 && mnr < 2))) { const int64_t n = (L / 4 + 1) + 3 * L; g_plan.push_back({static_cast<int>(b), 5, n, g_plan_total}); g_plan_total += n; }
+      continue;
+    }
     const int64_t counts[4] = {L + 1, 8 * L, 6 * L, 4 * L};  // truncation length L = the unmodified stream
     for (int kd = 0; kd < 4; ++kd) { g_plan.push_back({static_cast<int>(b), kd, counts[kd], g_plan_total}); g_plan_total += counts[kd]; }
     if (L <= magic_len) { g_plan.push_back({static_cast<int>(b), 4, 16 * L, g_plan_total}); g_plan_total += 16 * L; }
@@ -372,9 +379,16 @@ int main(int argc, char **argv) {
         case 1: mutated = MutByte(b, j / 8, j % 8); how = "byte@" + std::to_string(j / 8) + "/pat" + std::to_string(j % 8); break;
         case 2: mutated = MutU32(b, j / 6, j % 6); how = "u32@" + std::to_string(j / 6) + "/pat" + std::to_string(j % 6); break;
         case 3: mutated = MutVarint(b, j / 4, j % 4); how = "varint@" + std::to_string(j / 4) + "/pat" + std::to_string(j % 4); break;
+        case 5: {
+          const int64_t L = static_cast<int64_t>(b.size()), nt = L / 4 + 1;
+          if (j < nt) { mutated = b.substr(0, 4 * j); how = "truncate@" + std::to_string(4 * j); }
+          else if (j < nt + 2 * L) { const int64_t q = j - nt; const int pat = (q % 2) ? 3 : 0; mutated = MutByte(b, q / 2, pat); how = "byte@" + std::to_string(q / 2) + "/pat" + std::to_string(pat); }
+          else { const int64_t q = j - nt - 2 * L; mutated = MutU32(b, q, 4); how = "u32@" + std::to_string(q) + "/pat4"; }
+          break;
+        }
         default: mutated = MutMagic(b, j / 16, j % 16); how = "magic@" + std::to_string(j / 16) + "/pat" + std::to_string(j % 16); break;
       }
-      rep.count("mutation/" + std::string(sg.kind == 0 ? "truncate" : sg.kind == 1 ? "byte" : sg.kind == 2 ? "u32" : sg.kind == 3 ? "varint" : "wrap-magic"));
+      rep.count("mutation/" + std::string(sg.kind == 0 ? "truncate" : sg.kind == 1 ? "byte" : sg.kind == 2 ? "u32" : sg.kind == 3 ? "varint" : sg.kind == 4 ? "wrap-magic" : "legacy-thinned"));
     } else {
       const int64_t kk = k - sys_cases;
       const int mode = static_cast<int>(kk % 8);
